@@ -1,1 +1,310 @@
-pub fn run(_ctx: &crate::Ctx, _id: &str) -> i32 { 2 }
+//! Driving the real `Feig` client against the simulated terminal under tokio's
+//! paused clock; shared scenario runner of C07–C10 and C18–C20.
+
+use crate::sim::*;
+use crate::sut::panic_signature;
+use crate::Ctx;
+use futures::FutureExt;
+use refcodec::layout::Schema;
+use serde_json::json;
+use std::net::Ipv4Addr;
+use std::sync::{Arc, Mutex};
+use std::time::Duration;
+use zvt_feig_terminal::config::{Config, FeigConfig};
+use zvt_feig_terminal::feig::{CardInfo, Error as FeigError, Feig};
+use zvt_feig_terminal::verif_hook::{install, uninstall};
+
+#[derive(Clone, Debug, PartialEq)]
+pub struct ClientCfg {
+    pub terminal_id: String,
+    pub serial: String,
+    pub password: usize,
+    pub currency: usize,
+    pub pre_amount: usize,
+    pub read_card_timeout: u8,
+    pub max_tx: usize,
+}
+
+impl Default for ClientCfg {
+    fn default() -> Self {
+        ClientCfg { terminal_id: "52523535".into(), serial: "17FD1E3C".into(), password: 123456, currency: 978, pre_amount: 2500, read_card_timeout: 15, max_tx: 1 }
+    }
+}
+
+#[derive(Clone, Debug, PartialEq)]
+pub enum Call {
+    Configure,
+    ReadCard,
+    Begin(String),
+    Commit(String, u64),
+    Cancel(String),
+}
+
+impl Call {
+    pub fn name(&self) -> &'static str {
+        match self {
+            Call::Configure => "configure",
+            Call::ReadCard => "read_card",
+            Call::Begin(_) => "begin",
+            Call::Commit(..) => "commit",
+            Call::Cancel(_) => "cancel",
+        }
+    }
+}
+
+#[derive(Clone, Debug, PartialEq)]
+pub enum OkVal {
+    Unit,
+    Bank,
+    Membership(String),
+    Summary { terminal_id: Option<String>, amount: Option<u64>, trace_number: Option<u64>, date: Option<String>, time: Option<String> },
+}
+
+#[derive(Clone, Debug, PartialEq)]
+pub enum ErrClass {
+    ActiveTransaction,
+    UnknownToken,
+    NoCardPresented,
+    NeedsPinEntry,
+    UnexpectedPacket,
+    Aborted(u8),
+    /// another ZVTError (Debug)
+    Zvt(String),
+    Other,
+}
+
+#[derive(Clone, Debug, PartialEq)]
+pub enum CallResult {
+    Ok(OkVal),
+    Err { class: ErrClass, text: String },
+    Panic(String),
+    /// not returned after one virtual day
+    Hang,
+}
+
+impl CallResult {
+    pub fn is_ok(&self) -> bool {
+        matches!(self, CallResult::Ok(_))
+    }
+    pub fn short(&self) -> String {
+        match self {
+            CallResult::Ok(v) => format!("Ok({v:?})"),
+            CallResult::Err { class, text } => format!("Err({class:?}: {})", text.chars().take(100).collect::<String>()),
+            CallResult::Panic(p) => format!("Panic({p})"),
+            CallResult::Hang => "Hang(>1 virtual day)".into(),
+        }
+    }
+}
+
+pub fn classify_err(e: &anyhow::Error) -> CallResult {
+    let text = format!("{e:#}");
+    let class = if let Some(fe) = e.downcast_ref::<FeigError>() {
+        match fe {
+            FeigError::ActiveTransaction(_) => ErrClass::ActiveTransaction,
+            FeigError::UnknownToken(_) => ErrClass::UnknownToken,
+            FeigError::NoCardPresented => ErrClass::NoCardPresented,
+            FeigError::NeedsPinEntry => ErrClass::NeedsPinEntry,
+            FeigError::UnexpectedPacket => ErrClass::UnexpectedPacket,
+        }
+    } else if let Some(ze) = e.downcast_ref::<zvt::ZVTError>() {
+        match ze {
+            zvt::ZVTError::Aborted(c) => ErrClass::Aborted(*c),
+            other => ErrClass::Zvt(format!("{other:?}")),
+        }
+    } else {
+        ErrClass::Other
+    };
+    CallResult::Err { class, text }
+}
+
+#[derive(Clone, Debug)]
+pub struct Scenario {
+    pub cfg: ClientCfg,
+    pub sim_serial: String,
+    pub sim_terminal_id: String,
+    pub plan: Plan,
+    pub dangling: Option<u64>,
+    /// first receipt number the terminal issues (default 231)
+    pub first_receipt: u64,
+    pub calls: Vec<Call>,
+}
+
+impl Default for Scenario {
+    fn default() -> Self {
+        let cfg = ClientCfg::default();
+        Scenario { sim_serial: cfg.serial.clone(), sim_terminal_id: cfg.terminal_id.clone(), cfg, plan: Plan::default(), dangling: None, first_receipt: 231, calls: vec![] }
+    }
+}
+
+#[derive(Clone, Debug)]
+pub struct CallTrace {
+    /// 1 = Feig::new, 2.. = the calls of the scenario
+    pub index: usize,
+    pub call: Option<Call>,
+    pub result: CallResult,
+    pub virtual_ms: u64,
+    pub open_after: Option<Vec<(String, usize)>>,
+}
+
+pub struct Trace {
+    pub calls: Vec<CallTrace>,
+    pub log: Vec<ConnEv>,
+    pub requests: Vec<Request>,
+    pub ledger: Vec<PreAuth>,
+    pub tx_points: Vec<TxPoint>,
+    pub last_status: Option<StatusFields>,
+}
+
+const WATCHDOG: Duration = Duration::from_secs(86_400);
+
+enum Guarded<T> {
+    Done(T),
+    Panic(String),
+    Hang,
+}
+
+async fn guard<T>(fut: impl std::future::Future<Output = T>) -> Guarded<T> {
+    crate::sut::clear_last_panic();
+    match tokio::time::timeout(WATCHDOG, std::panic::AssertUnwindSafe(fut).catch_unwind()).await {
+        Err(_) => Guarded::Hang,
+        Ok(Err(_)) => Guarded::Panic(crate::sut::take_last_panic().unwrap_or_else(|| "?: panic".into())),
+        Ok(Ok(v)) => Guarded::Done(v),
+    }
+}
+
+pub fn run_scenario(sc: &Scenario, schema: &Arc<Schema>) -> Trace {
+    let rt = tokio::runtime::Builder::new_current_thread().enable_time().start_paused(true).build().expect("runtime");
+    let ip: Ipv4Addr = fresh_ip();
+    let shared: SharedRef = rt.block_on(async {
+        let mut sh = Shared::new(schema.clone(), &sc.sim_serial, &sc.sim_terminal_id, sc.plan.clone());
+        sh.dangling = sc.dangling;
+        sh.next_receipt = sc.first_receipt;
+        Arc::new(Mutex::new(sh))
+    });
+    install(ip, Arc::new(SimConnector { shared: shared.clone() }));
+    let calls = rt.block_on(async {
+        let mut out: Vec<CallTrace> = vec![];
+        let config = Config {
+            terminal_id: sc.cfg.terminal_id.clone(),
+            feig_serial: sc.cfg.serial.clone(),
+            ip_address: ip,
+            feig_config: FeigConfig { currency: sc.cfg.currency, pre_authorization_amount: sc.cfg.pre_amount, read_card_timeout: sc.cfg.read_card_timeout, password: sc.cfg.password },
+            transactions_max_num: sc.cfg.max_tx,
+        };
+        shared.lock().unwrap().begin_call();
+        let t0 = tokio::time::Instant::now();
+        let made = guard(Feig::new(config)).await;
+        let ms = t0.elapsed().as_millis() as u64;
+        let mut feig = match made {
+            Guarded::Done(Ok(f)) => {
+                out.push(CallTrace { index: 1, call: None, result: CallResult::Ok(OkVal::Unit), virtual_ms: ms, open_after: Some(f.verif_open_transactions()) });
+                f
+            }
+            Guarded::Done(Err(e)) => {
+                out.push(CallTrace { index: 1, call: None, result: classify_err(&e), virtual_ms: ms, open_after: None });
+                return out;
+            }
+            Guarded::Panic(p) => {
+                out.push(CallTrace { index: 1, call: None, result: CallResult::Panic(p), virtual_ms: ms, open_after: None });
+                return out;
+            }
+            Guarded::Hang => {
+                out.push(CallTrace { index: 1, call: None, result: CallResult::Hang, virtual_ms: ms, open_after: None });
+                return out;
+            }
+        };
+        for (i, call) in sc.calls.iter().enumerate() {
+            shared.lock().unwrap().begin_call();
+            let t0 = tokio::time::Instant::now();
+            let res: Guarded<CallResult> = guard(async {
+                match call {
+                    Call::Configure => match feig.configure().await {
+                        Ok(()) => CallResult::Ok(OkVal::Unit),
+                        Err(e) => classify_err(&e),
+                    },
+                    Call::ReadCard => match feig.read_card().await {
+                        Ok(CardInfo::Bank) => CallResult::Ok(OkVal::Bank),
+                        Ok(CardInfo::MembershipCard(s)) => CallResult::Ok(OkVal::Membership(s)),
+                        Err(e) => classify_err(&e),
+                    },
+                    Call::Begin(t) => match feig.begin_transaction(t).await {
+                        Ok(()) => CallResult::Ok(OkVal::Unit),
+                        Err(e) => classify_err(&e),
+                    },
+                    Call::Commit(t, amount) => match feig.commit_transaction(t, *amount).await {
+                        Ok(s) => CallResult::Ok(OkVal::Summary { terminal_id: s.terminal_id, amount: s.amount, trace_number: s.trace_number, date: s.date, time: s.time }),
+                        Err(e) => classify_err(&e),
+                    },
+                    Call::Cancel(t) => match feig.cancel_transaction(t).await {
+                        Ok(()) => CallResult::Ok(OkVal::Unit),
+                        Err(e) => classify_err(&e),
+                    },
+                }
+            })
+            .await;
+            let ms = t0.elapsed().as_millis() as u64;
+            let (result, stop) = match res {
+                Guarded::Done(r) => (r, false),
+                Guarded::Panic(p) => (CallResult::Panic(p), true),
+                Guarded::Hang => (CallResult::Hang, true),
+            };
+            let open_after = if stop { None } else { Some(feig.verif_open_transactions()) };
+            out.push(CallTrace { index: i + 2, call: Some(call.clone()), result, virtual_ms: ms, open_after });
+            if stop {
+                break;
+            }
+        }
+        drop(feig);
+        for _ in 0..8 {
+            tokio::task::yield_now().await;
+        }
+        out
+    });
+    uninstall(ip);
+    drop(rt);
+    let sh = shared.lock().unwrap();
+    Trace { calls, log: sh.log.clone(), requests: sh.requests.clone(), ledger: sh.ledger.clone(), tx_points: sh.tx_points.clone(), last_status: sh.last_status.clone() }
+}
+
+// ---------------------------------------------------------------- rendering for replay files / samples
+
+pub fn scenario_json(sc: &Scenario) -> serde_json::Value {
+    json!({
+        "config": {"terminal_id": sc.cfg.terminal_id, "serial": sc.cfg.serial, "password": sc.cfg.password, "currency": sc.cfg.currency, "pre_authorization_amount": sc.cfg.pre_amount, "read_card_timeout": sc.cfg.read_card_timeout, "transactions_max_num": sc.cfg.max_tx.to_string()},
+        "terminal": {"serial": sc.sim_serial, "terminal_id": sc.sim_terminal_id, "dangling_receipt": sc.dangling, "first_receipt": sc.first_receipt},
+        "plan": {
+            "exchanges": sc.plan.ex.iter().map(|(k, q)| (format!("call {} {:?}", k.0, k.1), q.iter().map(|x| format!("{x:?}")).collect::<Vec<_>>())).collect::<std::collections::BTreeMap<_, _>>(),
+            "faults": sc.plan.faults.iter().map(|f| format!("{f:?}")).collect::<Vec<_>>(),
+            "delay_ms": sc.plan.delay_ms, "split_delay_ms": sc.plan.split_delay_ms, "flip_serial_case": sc.plan.flip_serial_case,
+        },
+        "history": sc.calls.iter().map(|c| format!("{c:?}")).collect::<Vec<_>>(),
+    })
+}
+
+pub fn trace_json(tr: &Trace, max_log: usize) -> serde_json::Value {
+    json!({
+        "results": tr.calls.iter().map(|c| json!({"call": c.index, "op": c.call.as_ref().map(|x| format!("{x:?}")).unwrap_or_else(|| "Feig::new".into()), "result": c.result.short(), "virtual_ms": c.virtual_ms, "open_after": c.open_after})).collect::<Vec<_>>(),
+        "requests": tr.requests.iter().map(|r| json!({"call": r.call, "conn": r.conn, "cmd": format!("{:?}", r.cmd), "bytes": refcodec::hex(&r.bytes[..r.bytes.len().min(60)])})).collect::<Vec<_>>(),
+        "connection_log": tr.log.iter().take(max_log).map(|e| json!({"t_ms": e.t_ms, "call": e.call, "conn": e.conn, "ev": format!("{:?}", e.dir), "bytes": refcodec::hex(&e.bytes[..e.bytes.len().min(40)])})).collect::<Vec<_>>(),
+        "ledger": tr.ledger.iter().map(|p| format!("{p:?}")).collect::<Vec<_>>(),
+    })
+}
+
+pub fn case_json(sc: &Scenario, tr: &Trace) -> serde_json::Value {
+    json!({"kind": "client", "scenario": scenario_json(sc), "trace": trace_json(tr, 160)})
+}
+
+pub fn panic_sig(p: &str) -> String {
+    panic_signature(p)
+}
+
+pub fn run(ctx: &Ctx, id: &str) -> i32 {
+    match id {
+        "C07" | "C19" => crate::history::run(ctx, id),
+        "C08" => crate::c08::run(ctx),
+        "C09" | "C10" => crate::faults::run(ctx, id),
+        "C18" => crate::c18::run(ctx),
+        "C20" => crate::c20::run(ctx),
+        _ => 2,
+    }
+}
